@@ -339,6 +339,6 @@ def nontrivial(c):
 
 
 PARTS = [
-    Part("equivalent", strategy=case, oracle=oracle, nontrivial=nontrivial, n={"quick": 4000, "thorough": 30000},
+    Part("equivalent", strategy=case, oracle=oracle, nontrivial=nontrivial, n={"quick": 8000, "thorough": 30000},
          sample=lambda c: {"tr": c["tr"], "par": c["par"], "alg": c["alg"], "gkf": nm.gkf_text(c["net"])[:800]}),
 ]
